@@ -79,6 +79,85 @@ def explicit_route_check(d, dd, pt, m_ref):
     return None
 
 
+class RealBackend:
+    """the running pygom, driven through the same scenarios as the interpreter of gen/gen_routes.py"""
+    def T(self, **kw):
+        import pg
+        return pg.Transition(**kw)
+    def E(self, *a, **kw):
+        import pg
+        return pg.Event(*a, **kw)
+    def new_model(self):
+        import pg
+        return pg.model(state=["o", "d"], param=["r", "m0", "m1"])
+    def call(self, m, name, arg): return getattr(m, name)(arg)
+    def set(self, m, name, v): return setattr(m, name, v)
+
+
+def routes_correspondence(ck, gen_routes):
+    """K for the routes translator: the table the interpreter derives from the source against the same scenarios on the running code"""
+    SLOT, MAG = gen_routes.SLOT, gen_routes.MAG
+
+    def read(m):
+        out = []
+        for ev in m._eventList:
+            trs = [(t.transition_type.name, SLOT.get(getattr(t, "_orig_state", None), "?"), SLOT.get(getattr(t, "_dest_state", None), "?"),
+                    MAG.get(str(t._magnitude), -1)) for t in ev.transition_list]
+            out.append((ev.rate == "r", trs))
+        return out
+
+    def snapshot(t):
+        return {k: (v.name if hasattr(v, "name") and hasattr(v, "value") else v) for k, v in vars(t).items()}
+
+    def sym_snapshot_equal(a, b):
+        return a == b
+    try:
+        sym = gen_routes.sym_table()
+    except Exception as e:          # noqa: BLE001  (the translator failed closed: already reported as a broken obligation)
+        ck.notes["routes_correspondence"] = "skipped: translator failed closed (%s)" % str(e)[:120]
+        return
+    real = gen_routes.run_table(RealBackend(), read, lambda m: True, snapshot,
+                                lambda m, o: (m._odeList == [o] and m._eventList == [] and o._orig_state == "o" and o._equation == "r"),
+                                Exception)
+    diffs = []
+    for (n1, k1, o1), (n2, k2, o2) in zip(sym["rows"], real["rows"]):
+        a = o1 if o1[0] == "Raised" else ("Stored", o1[1])
+        b = o2 if o2[0] == "Raised" else ("Stored", o2[1])
+        ck.case(dict(kind="route-scenario", route=n1, process=k1), nontrivial=True)
+        if a != b:
+            diffs.append("%s / %s: interpreter %s, running code %s" % (n1, k1, a, b))
+    for key in ("reuse", "order", "ode_ok", "bad"):
+        if sym[key] != real[key]:
+            diffs.append("%s: interpreter %s, running code %s" % (key, sym[key], real[key]))
+    ck.notes["routes_correspondence"] = dict(scenarios=len(sym["rows"]), refused_inputs=len(sym["bad"]), disagreements=len(diffs))
+    if diffs:
+        ck.broken.append(dict(theorem="correspondence: routes table (source run by gen/minipy.py) vs the running constructors / add_* methods",
+                              file="c12 routes", error="; ".join(diffs)[:1500]))
+    # the property on the running code, stated directly: every route stores the canonical event, refuses malformed input,
+    # leaves the caller's objects alone
+    canon = {"PT": [("T", "SO", "SD", 0)], "PD": [("D", "SO", "SNone", 0)], "PBd": [("B", "SNone", "SD", 0)],
+             "PBo": [("B", "SNone", "SO", 0)], "PT1": [("T", "SO", "SD", 2)], "PTD": [("T", "SO", "SD", 0), ("D", "SD", "SNone", 1)]}
+
+    def same(trs, want):
+        if len(trs) != len(want): return False
+        for (ty, o, d, mg), (wty, wo, wd, wmg) in zip(trs, want):
+            if ty != wty or mg != wmg: return False
+            if ty in ("T", "D") and o != wo: return False
+            if ty in ("T", "B") and d != wd: return False
+        return True
+    for name, kind, out in real["rows"]:
+        if out[0] == "Raised" or len(out[1]) != 1 or out[1][0][0] is not True or not same(out[1][0][1], canon[kind]):
+            ck.violation("route-not-normalised", "route '%s' given a %s process holds %s in the model's event list; the process is rate r with "
+                         "transitions %s" % (name, kind, out, canon[kind]), dict(kind="route-scenario", route=name, process=kind))
+    for k, b in real["reuse"]:
+        if not b:
+            ck.violation("route-mutates-definition", "add_event changed the %s Transition object it was given" % k,
+                         dict(kind="route-reuse", process=k))
+    for n, b in real["bad"]:
+        if not b:
+            ck.violation("malformed-definition-accepted", "'%s' was accepted" % n, dict(kind="route-refused", name=n))
+
+
 def variants(d, rng):
     nproc = len(d["events"]) + len(d["odes"])
     out = []
@@ -95,8 +174,11 @@ def run(ck):
                "lists incl. births by origin / per-process random mix incl. Transition-with-own-rate in an Event / "
                "incremental add_*), random process orders and list/comma/space declarations; non-trivial = >= 2 events, "
                "one single-transition (so the legacy route really differs); distinct by JSON hash")
-    ck.coq_build("C12", [("AssemblyGen", gen_assembly.generate())], extra=("Util.vo", "AssemblyQc.vo"))
+    import gen_routes
+    ck.coq_build("C12", [("AssemblyGen", gen_assembly.generate()), ("RoutesGen", gen_routes.generate())],
+                 extra=("Util.vo", "AssemblyQc.vo", "Routes.vo"))
     common.name_assumptions(ck, "C12")
+    routes_correspondence(ck, gen_routes)
     rng = np.random.default_rng(ck.seed)
     N = ck.budget(70, 700)
     cases = []
@@ -180,6 +262,14 @@ def run(ck):
 
 def replay(ck, data):
     inp = data["input"]
+    if str(inp.get("kind", "")).startswith("route-"):
+        import gen_routes
+        c = common.Check("C12", "quick", 0)
+        routes_correspondence(c, gen_routes)
+        for v in c.violations:
+            if v["input"] == inp:
+                return "[%s] %s" % (v["cls"], v["what"])
+        return None
     d = inp["definition"]
     rng = np.random.default_rng(inp.get("seed", 0))
     pt = mg.random_point(rng, d)
